@@ -40,6 +40,60 @@ RespSame(e, a, b) ==
 
 Tag(prefix, S) == { prefix \o p : p \in S }
 
+----------------------------------------------------------------------------
+(* expression lab: e.op = "Match" (a condition) or "Apply" (an update) with bindings; e.r maps a channel name
+   ("lang" = interpreter.Language called directly, "v1" / "v2" = conditional PutItem / UpdateItem through the
+   client, "scan" = the condition as a Scan filter) to [o |-> outcome, after |-> [some, i]].                *)
+LabOps == {"Match", "Apply"}
+\* a path is "blocked" when it runs into a present value that is not a map (for .name) / not a list (for [n])
+RECURSIVE BlockedIn(_,_)
+BlockedIn(val, steps) ==
+  IF steps = <<>> THEN FALSE
+  ELSE LET st == Head(steps) IN
+       IF st.s = "n" THEN (IF val.t # "M" THEN TRUE ELSE IF st.n \in DOMAIN val.m THEN BlockedIn(val.m[st.n], Tail(steps)) ELSE FALSE)
+       ELSE (IF val.t # "L" THEN TRUE ELSE IF st.i + 1 \in DOMAIN val.l THEN BlockedIn(val.l[st.i + 1], Tail(steps)) ELSE FALSE)
+OTy(o, item, names, values) ==
+  LET x == Opd(o, item, names, values) IN
+  IF o.k = "size" THEN "size" ELSE IF x.st = "ok" THEN x.v.t
+  ELSE IF x.st = "missing" THEN (IF o.k = "path" /\ BlockedIn(AsMap(item), Resolve(o.p, names)) THEN "blocked" ELSE "absent")
+  ELSE "undefined"
+RECURSIVE CondSig(_,_,_,_)
+CondSig(c, item, names, values) ==
+  LET T(o) == OTy(o, item, names, values) IN
+  CASE c.k = "cmp"     -> { <<"cmp", c.op, T(c.l), T(c.r)>> }
+    [] c.k = "between" -> { <<"between", T(c.x), T(c.lo), T(c.hi)>> }
+    [] c.k = "in"      -> { <<"in", T(c.x)>> }
+    [] c.k \in {"and", "or"} -> CondSig(c.l, item, names, values) \cup CondSig(c.r, item, names, values)
+    [] c.k = "not"     -> CondSig(c.x, item, names, values)
+    [] c.k = "fn"      -> { <<"fn", c.f>> \o [i \in DOMAIN c.args |-> T(c.args[i])] }
+    [] OTHER           -> { <<"other">> }
+PathTy(p, item, names) == IF ~ResolveOK(p, names) THEN "undefined"
+                          ELSE LET g == GetPath(item, Resolve(p, names)) IN IF g.p THEN g.v.t ELSE "absent"
+RhsTy(o, item, names, values) == LET r == Rhs(o, item, names, values) IN IF r.ok THEN r.v.t ELSE "invalid"
+UpdSig(u, item, names, values) ==
+     { <<"set", u.set[i].v.k, IF Len(u.set[i].p) = 1 THEN "top" ELSE "nested", PathTy(u.set[i].p, item, names), RhsTy(u.set[i].v, item, names, values)>> : i \in DOMAIN u.set }
+  \cup { <<"remove", IF Len(u.remove[i]) = 1 THEN "top" ELSE "nested", PathTy(u.remove[i], item, names)>> : i \in DOMAIN u.remove }
+  \cup { <<"add", PathTy(u.add[i].p, item, names), RhsTy(u.add[i].v, item, names, values)>> : i \in DOMAIN u.add }
+  \cup { <<"delete", PathTy(u.del[i].p, item, names), RhsTy(u.del[i].v, item, names, values)>> : i \in DOMAIN u.del }
+LabSig(e) == IF e.op = "Match" THEN CondSig(e.ast, e.item, e.names, e.values) ELSE UpdSig(e.ast, e.item, e.names, e.values)
+
+LabFails(e) ==
+  UNION { LET out == e.r[ch]
+              direct == ch = "lang"
+              isErr == out.o = "E" \/ (out.o = "panic_syntax" /\ ~direct)
+          IN IF out.o \in {"crash", "timeout"} \/ (out.o = "panic_syntax" /\ direct) THEN { ch \o ".NoCrash" }
+             ELSE IF e.op = "Match"
+             THEN LET allowed == CondOut(e.ast, e.item, e.names, e.values) IN
+                  (IF (out.o \in {"T", "F"} /\ out.o \in allowed) \/ (isErr /\ "E" \in allowed) THEN {} ELSE { ch \o ".Outcome" })
+                  \cup (IF out.after.some /\ ~SameItem(out.after.i, e.item) THEN { ch \o ".Modified" } ELSE {})
+             ELSE LET res == ApplyU(e.ast, e.item, e.names, e.values, {"pk"}) IN
+                  IF res.ok
+                  THEN (IF out.o = "ok" THEN {} ELSE { ch \o ".Outcome" })
+                       \cup (IF out.o = "ok" /\ ~(out.after.some /\ SameItem(out.after.i, res.item)) THEN { ch \o ".Result" } ELSE {})
+                  ELSE (IF isErr THEN {} ELSE { ch \o ".Outcome" })
+                       \cup (IF isErr /\ out.after.some /\ ~SameItem(out.after.i, e.item) THEN { ch \o ".Modified" } ELSE {})
+        : ch \in DOMAIN e.r }
+
 \* the state after event e given the (first client's) response
 After(d, e) ==
   LET oc == OcOf(e.r1)
@@ -66,10 +120,14 @@ TraceNext ==
   /\ LET e == Trace[l] IN
      IF e.op = "Reset"
      THEN db' = InitDB /\ l' = l + 1 /\ UNCHANGED fails
+     ELSE IF e.op \in LabOps
+     THEN LET f == LabFails(e) IN
+          /\ db' = db /\ l' = l + 1
+          /\ fails' = IF f = {} THEN fails ELSE Append(fails, [l |-> l, op |-> e.op, oc |-> "lab", parts |-> f, sig |-> LabSig(e)])
      ELSE LET f == EventFails(db, e) IN
           IF f = {}
           THEN db' = After(db, e) /\ l' = l + 1 /\ UNCHANGED fails
-          ELSE /\ fails' = Append(fails, [l |-> l, op |-> e.op, oc |-> OcOf(e.r1), parts |-> f])
+          ELSE /\ fails' = Append(fails, [l |-> l, op |-> e.op, oc |-> OcOf(e.r1), parts |-> f, sig |-> {}])
                /\ l' = NextReset(l + 1) /\ db' = InitDB
   /\ TLCSet(1, l') /\ TLCSet(2, fails')
 
